@@ -1204,4 +1204,56 @@ theorem old_readAll_diverges {c : Codec} {raw p : Bytes} {out : Nat → Bytes} (
         simp only [show ¬ (Mode.read = Mode.readEof) by decide, if_false]
         rw [fillLoop_old_diverges c _ _ (by simp) rfl (by simpa using ht)]
 
+/-! ### `_read_bytes` over a file object that is a byte stream -/
+
+theorem readBytes_spec {σ : Type} {S : Source σ} {payload : Bytes} {G : σ → Prop} {N : Nat}
+    (hR : Regular S payload G N) {fuel : Nat} (hf : N + 2 ≤ fuel) (size : Nat)
+    {s : ZFile σ} {o : Nat} {cs : List Bytes} (hI : InvAt S payload G N s o cs) :
+    (size ≤ payload.length - s.pos →
+      ∃ s', readBytes S fuel size s = .ok (s', (payload.drop s.pos).take size) ∧ s'.pos = s.pos + size) ∧
+    (payload.length - s.pos < size → readBytes S fuel size s = .error (.exc .valueError)) := by
+  have hcs := hI.len_le
+  have hpl := hI.pos_le
+  obtain ⟨s1, o1, cs1, h1, hI1, hl1, hp1⟩ := read_spec (fuel := fuel) hR hI (by omega) (size : Int)
+  have hsr : specRead payload s.pos (size : Int) = (payload.drop s.pos).take size := by
+    unfold specRead
+    have : ¬ ((size : Int) < 0) := by omega
+    simp [this]
+  rw [hsr] at h1 hp1
+  have hlen : ((payload.drop s.pos).take size).length = min size (payload.length - s.pos) := by
+    rw [List.length_take, List.length_drop]
+  unfold readBytes
+  rw [readBytesLoop]
+  simp only [List.length_nil, Int.ofNat_zero, Int.sub_zero, h1, List.nil_append]
+  constructor
+  · intro hle
+    have hfull : ((payload.drop s.pos).take size).length = size := by rw [hlen]; omega
+    refine ⟨s1, ?_, by rw [hp1, hfull]⟩
+    simp [hfull]
+  · intro hlt
+    have hshort : ((payload.drop s.pos).take size).length = payload.length - s.pos := by rw [hlen]; omega
+    by_cases hz : payload.length - s.pos = 0
+    · have : ¬ ((payload.drop s.pos).take size).length = size := by omega
+      simp [hshort, hz]
+      omega
+    · -- some bytes came, but fewer than asked for: the next read is at end of stream and returns b''
+      have hne1 : ¬ ((payload.drop s.pos).take size).length = 0 := by omega
+      have hne2 : ¬ ((payload.drop s.pos).take size).length = size := by omega
+      simp only [hne1, hne2, or_self, if_false]
+      have hcs1 := hI1.len_le
+      obtain ⟨s2, o2, cs2, h2, _, _, hp2⟩ := read_spec (fuel := fuel) hR hI1 (by omega)
+        ((size : Int) - (((payload.drop s.pos).take size).length : Int))
+      have hend : payload.drop s1.pos = [] := by
+        rw [List.drop_eq_nil_iff, hp1, hshort]; omega
+      have hsr2 : specRead payload s1.pos ((size : Int) - (((payload.drop s.pos).take size).length : Int)) = [] := by
+        unfold specRead
+        rw [hend]; simp
+      rw [hsr2] at h2
+      cases size with
+      | zero => omega
+      | succ n =>
+        rw [readBytesLoop, h2]
+        simp
+        omega
+
 end JoblibModel.ZlibFile
